@@ -27,7 +27,7 @@ LEVEL_TEXT = ("Lean model of the logic inside markdown.py: grouping of code bloc
 LEVEL_NOTE = ("Partial: marko's CommonMark parsing/rendering is outside the model; 'everything else renders as plain CommonMark', absence of placeholder "
               "residue and independence of the random generator are checked by the oracle against marko.Markdown() on generated documents (search). "
               "Placeholder collisions with document text have probability about 26^-32 per position (stated, not proved).")
-LEAN_MODULES = ["RecipeGrid.Props.C13", "RecipeGrid.Props.C13b", "RecipeGrid.Props.C13c", "RecipeGrid.Props.C13d"]
+LEAN_MODULES = ["RecipeGrid.Props.C13", "RecipeGrid.Props.C13b", "RecipeGrid.Props.C13c", "RecipeGrid.Props.C13d", "RecipeGrid.Props.C13e"]
 SOURCES = ["recipe_grid/markdown.py"]
 RULE = ("generated documents: optional first heading (ATX/setext, serving phrases), prose with and without brace expressions, lists, quotes, raw HTML, code "
         "spans, other fenced code, 1-2 independent recipes of 1-3 blocks each as indented / ```recipe / ~~~new-recipe blocks at top level, in list items "
